@@ -45,6 +45,22 @@ def _op_chain(f: Func, attr_chain: str = 'pyval.op') -> Dict[str, str]:
                 d = dotted(k) or ''
                 if d.startswith('ast.') and len(syms) == 1:
                     out[d[4:]] = syms[0]
+    # the same table written as data: a class / module constant of (ast.K, 'sym') pairs or a {ast.K: 'sym'} mapping that the function (or a private helper
+    # it calls) consults
+    read = {x.id for x in f.walk() if isinstance(x, ast.Name)} | {x.attr for x in f.walk() if isinstance(x, ast.Attribute)}
+    helpers = [g for g in (f.cls.methods.values() if f.cls is not None else []) if g.name in {call_name(c) for c in calls_in(f)} and g.name.startswith('_')]
+    for g in helpers:
+        read |= {x.id for x in g.walk() if isinstance(x, ast.Name)} | {x.attr for x in g.walk() if isinstance(x, ast.Attribute)}
+    tables = [v for k, v in list(f.mod.assigns.items()) + (list(f.cls.aliases.items()) if f.cls is not None else []) if k in read]
+    for tb in tables:
+        if isinstance(tb, (ast.Tuple, ast.List)):
+            for e in tb.elts:
+                if isinstance(e, ast.Tuple) and len(e.elts) == 2 and (dotted(e.elts[0]) or '').startswith('ast.') and const_str(e.elts[1]) is not None:
+                    out.setdefault((dotted(e.elts[0]) or '')[4:], const_str(e.elts[1]) or '')
+        if isinstance(tb, ast.Dict):
+            for k, v in zip(tb.keys, tb.values):
+                if k is not None and (dotted(k) or '').startswith('ast.') and const_str(v) is not None:
+                    out.setdefault((dotted(k) or '')[4:], const_str(v) or '')
     return out
 
 
